@@ -603,9 +603,34 @@ class _Rewriter(ast.NodeTransformer):
             return [st]
         h, recv = self.inl.resolve(call, self.cls[-1])
         if h is None or h.name in self.current or h.is_gen:
-            return [st]
+            return self.hoist_nested(st)
         r = self.stmt_with(st, h, recv)
         return [st] if r is None else r
+
+    def hoist_nested(self, st):
+        """`x.extend(helper(..))` / `y = f(helper(..))`: a statement-only helper (loops, several statements) called as an argument of
+        the statement's call is evaluated into a local first (arguments are evaluated before the call anyway), where the statement
+        forms apply"""
+        top = st.value
+        if not isinstance(top, ast.Call):
+            return [st]
+        for i, a in enumerate(top.args):
+            if isinstance(a, ast.Call):
+                h, recv = self.inl.resolve(a, self.cls[-1])
+                if h is not None and h.name not in self.current and not h.is_gen and self.inl.expr_form(h) is None:
+                    # earlier arguments must not be calls (their evaluation order relative to the hoisted call would change)
+                    if any(isinstance(n, ast.Call) for b in top.args[:i] for n in ast.walk(b)) or any(isinstance(n, ast.Call) for n in ast.walk(top.func) if n is not top):
+                        return [st]
+                    self.inl.counter += 1
+                    tmp = f"arg__{h.name.strip('_')}{self.inl.counter}"
+                    asg = ast.copy_location(ast.Assign(targets=[ast.Name(id=tmp, ctx=ast.Store())], value=a), st)
+                    r = self.stmt_with(asg, h, recv)
+                    if r is None:
+                        return [st]
+                    top.args[i] = ast.copy_location(ast.Name(id=tmp, ctx=ast.Load()), a)
+                    self.changed = True
+                    return r + [st]
+        return [st]
 
     def stmt_with(self, st, h, recv):
         """the statement with its (top-level) call to helper `h` spliced in, or None if no statement form applies"""
